@@ -172,21 +172,33 @@ def run(c, facts, tier):
         codegen.diff_tables(c, "C02.match", k, codegen.plain(rows), spec["tables"][k], "matcher definition")
     a_, b_ = [mt[M] for M in codegen.MANAGERS]
     c.ob("C02.match", "scheme::manager", "both managers choose and define matchers identically", a_ == b_, "sibling tables %s" % ("agree" if a_ == b_ else "differ: %s" % [k for k in set(a_) | set(b_) if a_.get(k) != b_.get(k)][:3]))
-    want_m = {"(True,True)": "fnmatch-ci?", "(False,True)": "streq-ci?", "(True,False)": "fnmatch?", "(False,False)": "streq?"}
+    # which matcher: decided by "is the pattern a glob" (the condition made of contains('?'|'*'|'[') on the pattern) and by
+    # the case flag (the second parameter); both appear as conditions of the allocating paths
+    want_m = {(True, True): "fnmatch-ci?", (False, True): "streq-ci?", (True, False): "fnmatch?", (False, False): "streq?"}
+    seen_m = set()
     for key, row in a_.items():
-        m = re.search(r"∈(\((?:True|False),(?:True|False)\))", key)
-        if m and row["effects"]:
-            txt = " ".join(row["effects"])
-            fn_ = re.search(r"\((fnmatch-ci\?|streq-ci\?|fnmatch\?|streq\?) ", txt)
-            c.ob("C02.match", "scheme::manager", "(is_pattern, insensitive)=%s → %s" % (m.group(1), want_m[m.group(1)]), fn_ is not None and fn_.group(1) == want_m[m.group(1)], "definition `%s`" % txt[:110], nontrivial=False)
+        if not row["effects"]:
+            continue
+        atoms = key.split(" ∧ ")
+        ci = [x.split("=")[1] == "True" for x in atoms if re.fullmatch(r"@1=(True|False)", x)]
+        glob_atoms = [x for x in atoms if ".contains(" in x and "@0" in x and re.search(r"=(True|False)$", x)]
+        if len(ci) != 1 or len(glob_atoms) != 1:
+            c.ob("C02.match", "scheme::manager", "matcher choice [%s]" % key[:70], None, "the allocating path does not branch on exactly one glob test of the pattern and on the case flag: %s" % atoms)
+            continue
+        gsub, gval = glob_atoms[0].rsplit("=", 1)
+        chars = sorted(re.findall(r"@0\.contains\('(.)'\)", gsub))
+        shape_ok = chars == sorted("?*[") and re.sub(r"@0\.contains\('.'\)", "T", gsub).replace("(", "").replace(")", "").replace(" ", "") in ("T|T|T", "T||T||T")
+        k_ = (gval == "True", ci[0])
+        seen_m.add(k_)
+        txt = " ".join(row["effects"])
+        fn_ = re.search(r"\((fnmatch-ci\?|streq-ci\?|fnmatch\?|streq\?) ", txt)
+        c.ob("C02.match", "scheme::manager", "(is_pattern, insensitive)=%s → %s" % (k_, want_m[k_]), shape_ok and fn_ is not None and fn_.group(1) == want_m[k_], "glob test `%s` (a pattern is a string containing ?, * or [: %s); definition `%s`" % (gsub[:80], shape_ok, txt[:110]), nontrivial=False)
+    c.ob("C02.match", "scheme::manager", "all four (glob, case) combinations allocate a matcher", seen_m == set(want_m), "combinations seen: %s" % sorted(seen_m), nontrivial=False)
     # C02.printer: what each manager defines for a (destination, terminator) request
     for M in codegen.MANAGERS:
         for meth in ("get_printer", "get_file_printer"):
             k = codegen.mgr_key(facts, M, meth)
             codegen.diff_tables(c, "C02.printer", k, codegen.plain(codegen.table(facts, k, codegen.AFF())), spec["tables"][k], "printer definition")
-    ip = facts.fn("scheme::manager::is_pattern")
-    chars = sorted(n["v"] for n in find_all(ip.body, lambda n: n.get("k") == "lit" and n.get("t") == "char"))
-    c.ob("C02.match", ip.key, "a pattern is a string containing ?, * or [", chars == sorted("?*["), "is_pattern tests for %s" % chars, nontrivial=False)
     # the name/path tests pass the right case flag and accessor
     for v, (acc, ci) in {"Name": ("call-with-name", "false"), "InsensitiveName": ("call-with-name", "true"), "Path": ("call-with-relative-path", "false"), "InsensitivePath": ("call-with-relative-path", "true")}.items():
         row = ex.get("self∈Test::%s" % v)
